@@ -112,6 +112,9 @@ def run(ctx):
             if name == "KdqTreeStreaming":
                 n = int(crng.choice([200, 400]))
             hist = fam.history(crng, cfg, n)
+            if name == "CUSUM" and k % 4 == 3:
+                hist = _plateau_stream(crng, cfg, n)
+                ctx.count("CUSUM:plateau-histories")
             det = fam.make(cfg)
             items = fam.start(det, cfg, hist) or hist
             setref_at = int(crng.integers(1, max(2, len(items) - 2))) if fam.kind == "batch" and crng.random() < 0.7 else None
@@ -144,7 +147,22 @@ def run(ctx):
                 try:
                     fam.feed(det, it)
                 except Exception as e:
+                    # the running detector rejects this update (e.g. CUSUM's documented ValueError once the re-estimated
+                    # standard deviation is 0): a fresh twin with the documented carry-over must reject it the same way
                     ctx.count(f"{name}:update-raised")
+                    for tw in twins:
+                        try:
+                            fam.feed(tw[0], it)
+                            ctx.fail(detector=name, config=cfg, spawn_after_update=tw[2] - 1, step=i, twin_kind=tw[4],
+                                     what=f"the running detector raised {type(e).__name__} where the fresh twin accepted the update",
+                                     history_seed=[ctx.seed, 2, name, k],
+                                     items_from_spawn=[_show(x) for x in items[max(0, tw[2] - 1): min(len(items), i + 1)]][:40])
+                        except Exception as e2:
+                            ctx.count(f"{name}:twin-raised-too")
+                            if type(e2) is not type(e):
+                                ctx.fail(detector=name, config=cfg, spawn_after_update=tw[2] - 1, step=i, twin_kind=tw[4],
+                                         what=f"the running detector raised {type(e).__name__}, the fresh twin {type(e2).__name__}",
+                                         history_seed=[ctx.seed, 2, name, k])
                     break
                 if name in ("CUSUM",):
                     raw.append(float(it))
@@ -205,6 +223,20 @@ def run(ctx):
     ctx.extra["families_without_multi_epoch_twin"] = weak
     if len(weak) > 3:
         raise core.Infra(f"degenerate input distribution: no twin spanning a further drift for {weak}")
+
+
+def _plateau_stream(rng, cfg, n):
+    """quantised signal: noisy stretches alternate with constant plateaus longer than burn_in, so that the last burn_in
+    observations before an alarm can all be equal (re-estimated sd_hat = 0: the documented degenerate case must then be
+    reached by the running detector and by the fresh twin alike)"""
+    b, out, lvl = cfg["burn_in"], [], 0.0
+    while len(out) < n:
+        seg = int(rng.integers(b + 2, 4 * b + 12))
+        out += [lvl + float(rng.integers(-8, 9)) / 8.0 + float(rng.integers(1, 64)) / 1024.0 for _ in range(seg)]
+        lvl += float(rng.choice([-3.0, -1.0, 1.0, 3.0]))
+        seg = int(rng.integers(b + 2, 6 * b + 30))
+        out += [lvl] * seg
+    return out[:n]
 
 
 def _show(it):
